@@ -160,13 +160,17 @@ def Expect.holds : Expect → Nat → Prop
   | .exact v, x => x = v
   | .rule r v, x => r.holds v x
 
-/-- expectation on a read of `b`; `init c` = what cell `c` read at the start of the history -/
+/-- what a cell in a given abstract state lets a read of it return; `init c` = what cell `c` read at the
+    start of the history -/
+def cellExpect (init : Nat → Nat) (c : Nat) : Cell → Expect
+  | .initial => .exact (init c)
+  | .written v => .rule (ruleOf c) v
+  | .unknown => .any
+
+/-- expectation on a read of `b` -/
 def expect (init : Nat → Nat) (x : Abs) (b : Nat) : Expect :=
   if x.dma = true ∧ 0xfe00 ≤ b ∧ b < 0xff00 then .any
-  else match x.cell (canon b) with
-    | .initial => .exact (init (canon b))
-    | .written v => .rule (ruleOf (canon b)) v
-    | .unknown => .any
+  else cellExpect init (canon b) (x.cell (canon b))
 
 /-- the expectations on the reads of a history, in order -/
 def reads (init : Nat → Nat) : Abs → List BusOp → List Expect
